@@ -106,6 +106,30 @@ func (o *serialOracle) run(w *core.Worker, order []core.Req, key string) *serial
 func sections(req core.Req) []core.Req {
 	cls := opClass(req)
 	switch {
+	case cls == "new-task" && (req.Stdin == nil || indexOf(req.Args, "--body-stdin") >= 0):
+		// flags mode: --state / --claim are applied by a follow-up section
+		var createArgs, followArgs []string
+		i := indexOf(req.Args, "task")
+		createArgs = append(createArgs, req.Args[:i+1]...)
+		followArgs = append(followArgs, replaceTail(req.Args[:i+1], []string{"new", "task"}, []string{"set", "$NEW"})...)
+		has := false
+		rest := req.Args[i+1:]
+		for k := 0; k < len(rest); k++ {
+			if (rest[k] == "--state" || rest[k] == "--claim") && k+1 < len(rest) {
+				followArgs = append(followArgs, rest[k], rest[k+1])
+				has = true
+				k++
+				continue
+			}
+			createArgs = append(createArgs, rest[k])
+		}
+		if !has {
+			return nil
+		}
+		a, b := req, req
+		a.Args, b.Args = createArgs, followArgs
+		b.Stdin = nil
+		return []core.Req{a, b}
 	case cls == "new-task" && req.Stdin != nil:
 		var m map[string]interface{}
 		if json.Unmarshal(*req.Stdin, &m) != nil {
